@@ -53,17 +53,13 @@ func probe(args []string) {
 	storageActors(w)
 	acts := []chainsim.Action{
 		addBlobber(w, "b0", "c3", 2),
-		addBlobber(w, "b1", "c3", 2),
 		addValidator(w, "v0", "c3"),
-		call(w, "c0", "storagesc", "stake_pool_lock", sspReq(w, "b0"), 2e9, 0, "->b0"),
-		call(w, "c1", "storagesc", "stake_pool_lock", sspReq(w, "b0"), 4e9, 0, "->b0"),
-		call(w, "c0", "storagesc", "stake_pool_lock", sspReq(w, "v0"), 2e9, 0, "->v0"),
-		sCall(w, "b0", "shutdown_blobber", "b0"),
-		sCall(w, "c2", "shutdown_blobber", "b0"),
-		sCall(w, "c3", "shutdown_blobber", "b0"),
-		sCall(w, "c3", "shutdown_blobber", "b0"),
-		sCall(w, "c3", "shutdown_validator", "v0"),
-		sCall(w, "owner", "kill_blobber", "b1"),
+		sLock(w, "c0", "b0", 4e8),
+		sCall(w, "owner", "kill_validator", "b0"),
+		sLock(w, "c1", "b0", 4e8),
+		sUnlock(w, "c0", "b0"),
+		sCall(w, "owner", "kill_blobber", "b0"),
+		sCall(w, "owner", "kill_blobber", "v0"),
 	}
 	n := w.GenesisNode()
 	prev := map[string]string{}
@@ -89,5 +85,9 @@ func probe(args []string) {
 			}
 		}
 		prev = cur
+		lg := decodeLedger(world.Leaves(n.State), nil)
+		for k, p := range lg.Provs {
+			fmt.Printf("      prov %s type=%d node=%v pool=%v killed=%v shut=%v spdead=%v pools=%v\n", k[:8], p.Type, p.HasNode, p.HasPool, p.Killed, p.ShutDown, p.SPKilled, p.Pools)
+		}
 	}
 }
